@@ -29,6 +29,9 @@ def run(tier):
             lex.append((0, "id", [[('r', 120, 122), ('p', [[('r', 120, 122)], [('r', 48, 57)]])]]))
             terms = gram.tokens_of_lex(lex) + [(2, "+")]
             syn = gram.rand_syn(ck.rng, terms, nnt=ck.rng.choice([2, 3]), p_error=0.15, p_error_mid=0.25)
+            if k % 3 == 1:
+                # conflicts resolved with -a must be resolved the same way under every flag set
+                syn = gram.conflict_rich_syn(ck.rng, terms[:3])
             if k % 2 == 0:
                 # an error symbol that is not the first symbol of its alternative (flags must not change which states can recover)
                 syn.append((syn[0][0], [terms[0], (1, "error"), terms[1]], 0, 0))
